@@ -85,6 +85,13 @@ class SymStr:
         return self.text
 
 
+class IterObj:
+    """iter(x): a position in a materialised sequence."""
+
+    def __init__(self, items):
+        self.items, self.pos = list(items), 0
+
+
 class Rec:
     """Instance of a repo class (NamedTuple or dataclass or plain)."""
 
@@ -1400,6 +1407,10 @@ class Interp:
 
     # ------------------------------------------------------------------ builtins
     def iterate(self, v):
+        if isinstance(v, IterObj):
+            rest = v.items[v.pos:]
+            v.pos = len(v.items)
+            return rest
         if isinstance(v, Rec) and self.is_namedtuple(v.cls):
             return list(v.astuple())
         if isinstance(v, Rec) and self.find_method(v.cls, "__iter__"):
@@ -1453,6 +1464,25 @@ class Interp:
         if name == "itertools.zip_longest":
             import itertools
             return list(itertools.zip_longest(*[self.iterate(x) for x in a], fillvalue=kwargs.get("fillvalue")))
+        if name == "iter":
+            return a[0] if isinstance(a[0], IterObj) else IterObj(self.iterate(a[0]))
+        if name == "next":
+            src = a[0]
+            if not isinstance(src, IterObj):
+                # a generator expression (evaluated eagerly to a list): sound for a single next() on it
+                if not isinstance(src, (list, tuple)):
+                    raise PyRaise("TypeError", node, "next() of a non-iterator")
+                seen = self.__dict__.setdefault("_nexted", [])
+                if any(x is src for x in seen):
+                    raise Undecided("repeated next() on one generator")
+                seen.append(src)
+                src = IterObj(src)
+            if src.pos < len(src.items):
+                src.pos += 1
+                return src.items[src.pos - 1]
+            if len(a) > 1:
+                return a[1]
+            raise PyRaise("StopIteration", node)
         if name == "enumerate":
             return list(enumerate(self.iterate(a[0]), *(a[1:])))
         if name == "reversed":
